@@ -144,6 +144,32 @@ pub L: Vec<Tok> = "a"%(rep2)s;
 """
 
 
+def f27_matcher(g, ntmap):
+    """F27 (root cause shared with F13): the inliner processes inlined nonterminals in an order
+    derived from their NAMES, and actions of distinct inlined nonterminals of one production run
+    in that order; renaming a nonterminal therefore permutes them.  Signature: a nonterminal was
+    renamed, the grammar has >= 2 inlined nonterminals with observable actions, results are
+    equal, and the two event logs become equal once every maximal run of consecutive
+    inlined-action events is sorted."""
+    pid_inline = {a.pid for nt in g.nts if nt.inline for a in nt.alts if a.pid is not None}
+    ninl = len({nt.name for nt in g.nts if nt.inline and any(a.pid is not None for a in nt.alts)})
+
+    def norm(ev):
+        out, run_ = [], []
+        for x in (ev or "").split():
+            if x[0] == "a" and x[1:].isdigit() and int(x[1:]) in pid_inline:
+                run_.append(x)
+            else:
+                out += sorted(run_) + [x]
+                run_ = []
+        return out + sorted(run_)
+
+    def m(k, w):
+        return (k.get("id") == "F27" and bool(ntmap) and ninl >= 2 and w.get("result") == w.get("result_renamed")
+                and w.get("events") != w.get("events_renamed") and norm(w.get("events")) == norm(w.get("events_renamed")))
+    return m
+
+
 def run(tier, seed):
     chk = core.Check("C25", "exploration", tier, seed)
     rng = chk.rng("gen")
@@ -163,6 +189,18 @@ def run(tier, seed):
     for tag in tags:
         specs.append(dict(name="a0_%s" % tag, text=gmodel.grammar_text(pg), cfg=tag, starts=pg.starts(), kind="extern"))
         specs.append(dict(name="b0_%s" % tag, text=gmodel.grammar_text(pg2), cfg=tag, starts=pg2.starts(), kind="extern"))
+    # deterministic probe of known finding F27: S = A B "c" with A, B inline; renaming A to a name that
+    # sorts after B changes the order in which the two inlined actions run
+    import copy
+    pg = probes.f13_grammar()
+    pg = copy.deepcopy(pg)
+    gen.add_user_inline(rng, pg, subset=set(pg.probe_inline))
+    pmap_ = {"A": "Zed"}
+    pg2 = rename(pg, pmap_, {})
+    pairs.append((pg, pg2, gmodel.desugar(pg), pmap_, {}))
+    for tag in tags:
+        specs.append(dict(name="a1_%s" % tag, text=gmodel.grammar_text(pg), cfg=tag, starts=pg.starts(), kind="extern"))
+        specs.append(dict(name="b1_%s" % tag, text=gmodel.grammar_text(pg2), cfg=tag, starts=pg2.starts(), kind="extern"))
     tries = 0
     while len(pairs) < n and tries < n * 4:
         tries += 1
@@ -303,8 +341,11 @@ def run(tier, seed):
         vb = rb.get("r") if rb.get("r") is not None else {"panic": rb.get("panic"), "crash": rb.get("crash")}
         # expected-token lists name nonterminals never, terminals only: compare in full
         if va != vb or ra.get("ev") != rb.get("ev"):
-            chk.violation({"kind": "renaming_changes_result", "sig": "result", "summary": "renaming %s / %s (%s) input %s: %s vs %s" % (pairs[pid][3], pairs[pid][4], tag, ea.toks, json.dumps(va)[:200], json.dumps(vb)[:200]),
-                           "grammar": subject.apply_config(ea.case.text, tag), "renamed": subject.apply_config(eb.case.text, tag)})
+            g_ = pairs[pid][0]
+            w = {"kind": "renaming_changes_result", "sig": "result", "summary": "renaming %s / %s (%s) input %s: %s vs %s; events %s vs %s" % (pairs[pid][3], pairs[pid][4], tag, ea.toks, json.dumps(va)[:200], json.dumps(vb)[:200], ra.get("ev"), rb.get("ev")),
+                 "grammar": subject.apply_config(ea.case.text, tag), "renamed": subject.apply_config(eb.case.text, tag),
+                 "result": va, "result_renamed": vb, "events": ra.get("ev"), "events_renamed": rb.get("ev")}
+            chk.violation(w, f27_matcher(g_, pairs[pid][3]))
         else:
             chk.count("results_equal")
             if ea.toks:
